@@ -457,6 +457,21 @@ func TestProp_Window(t *testing.T) {
 			}
 			vkit.Violate(t, prop, key, "request outside its skew-widened validity window (or with missing/unsupported fields) was processed", c)
 		}
+		// The very same request once more, with nothing in between - but this time the
+		// server is configured without clock skews, under which the request's window does
+		// not contain now: acceptance a moment ago must not carry over.
+		if err == nil && c.Expected && c.Field == "ok" && (c.Entry == "fetch-authorized" || c.Entry == "fetch-unknown") {
+			off1, off2 := a-nbSkew, b-naSkew // window edges relative to now
+			outside := off1 > 3*time.Second || off2 < -3*time.Second
+			if outside {
+				opts0 := w.O(nodeenrollment.WithNotBeforeClockSkew(0), nodeenrollment.WithNotAfterClockSkew(0))
+				_, err2 := registration.FetchNodeCredentials(w.Ctx, w.Store, req, opts0...)
+				rec.Case("window/"+c.Entry+"/same-request-again-under-narrower-skews", fmt.Sprintf("%+v|again", c), true, func() any { return c })
+				if err2 == nil {
+					vkit.Violate(t, prop, "C03/window/outside-accepted/"+c.Entry+"/presented-again", "a request that had just been accepted under wide clock skews was accepted again, byte for byte, by a call configured WITHOUT skews, although its window does not contain now", c)
+				}
+			}
+		}
 		if err != nil {
 			if wr := w.Rec.Writes(); len(wr) > 0 {
 				vkit.Violate(t, prop, "C03/write-on-rejection/"+c.Entry, fmt.Sprintf("rejected request wrote to storage: %s %s", wr[0].Kind, wr[0].Type), c)
